@@ -16,7 +16,7 @@ def check(ctx):
     torch, pfhedge = import_impl()
     g = ctx.gen
     ctx.lean_gate()
-    n = 800 if ctx.tier == "quick" else 12000
+    n = 1500 if ctx.tier == "quick" else 12000
     from pfhedge.nn import BSEuropeanOption, BSEuropeanBinaryOption, BSAmericanBinaryOption, BSLookbackOption
     PF = lambda fn, s, t, v, k, m=None, call=True: float(call_bs(torch, fn, s, t, v, k, s if m is None else m, call))
     T64 = lambda x: torch.tensor([x], dtype=torch.float64)
